@@ -266,9 +266,19 @@ DefFindings(T, j, k, postj) ==
 
 \* C15 look-back precondition at one call: once something has been trimmed, every candle
 \* whose readings are (re)computed must still have Warm(c) predecessors
+\* did this call trim anything on manager j?  Decided by the specification itself (candles can be
+\* appended and trimmed within one call without ever showing up in an observed state)
+TrimNow(T, e, j) ==
+  /\ T.mg[j].life >= 0 /\ e.op \in {"new", "append"} /\ (e.op = "append" => j \in mgs)
+  /\ T.mg[j].src = 0 \/ e.op = "append"
+  /\ LET nolife == [MCfg(T.mg[j]) EXCEPT !.life = -1]
+         full == IF e.op = "new" THEN MgrNew(RawSlice(T, 1, e.b), nolife)
+                 ELSE MgrAppend(st[j], RawSlice(T, e.a, e.b), nolife)
+     IN full.ok /\ Len(full.cs) > e.m[j].len
+
 LookbackOK(T, e, post) ==
   \A j \in 1..Len(T.mg) :
-     (T.mg[j].life >= 0 /\ (e.m[j].drop > 0 \/ trimmed)) =>
+     (T.mg[j].life >= 0 /\ (e.m[j].drop > 0 \/ trimmed \/ TrimNow(T, e, j))) =>
         \A n \in {n \in 1..Len(T.ind) : T.ind[n].mg = j} :
            \A q \in 1..Len(e.m[j].d) : e.m[j].d[q].i - 1 >= Warm(T.ind[n])
 
@@ -480,6 +490,7 @@ Step ==
         /\ ok15' = (ok15 /\ (e.op \in {"append", "calculate"} => LookbackOK(T, e, post)))
         /\ trimmed' = (trimmed \/ \E j \in 1..Len(T.mg) :
                             \/ e.m[j].drop > 0
+                            \/ TrimNow(T, e, j)
                             \/ (e.op = "new" /\ T.mg[j].life >= 0 /\ DefApplies(T, j)
                                 /\ Len(post[j]) < Len(ShownDef(RawSlice(T, 1, e.b),
                                                                [MCfg(T.mg[j]) EXCEPT !.life = -1])))
